@@ -206,6 +206,15 @@ def gen_adupdates(r, exact, opaque=False):
     stepsize = sl.pick_step(r, exact)
     inner = [sl.pick_step(r, exact) for _ in range(m)]
     rand_order, npseed = False, 0
+    if not opaque:
+        # pointwise inner step sizes (element / array / list) for the functionals whose
+        # conjugate proximal documents them, together with stepsize != 1
+        for i in range(m):
+            if gks[i] in ('l1', 'l2sq') and r.random() < 0.6:
+                arr = np.abs(sl.dy_vec(r, size_of(Ls[i].range), 8, 8)) + 0.125
+                inner[i] = r.choice([lambda a: Ls[i].range.element(a), np.array, list])(arr)
+        if any(not np.isscalar(v) for v in inner):
+            stepsize = r.choice([0.5, 2.0, 1.0, 0.25])
     if opaque:
         # implementation-vs-implementation only: pointwise inner step sizes (documented for
         # L1Norm / L2NormSquared) and random order with numpy seeded identically for both
@@ -270,7 +279,9 @@ def family_adupdates(ctx, r, exact, n, opaque=False):
                      'the last inner iterate of each sweep differs from the outer iterate', p, n=n)
     else:
         ctx.err(err_kind(st_o))
-    sig = ('opaque' if opaque else 'model', 'adupdates', p['opkind'], p['gk'], steps_class(exact), n)
+    sig = ('opaque' if opaque else 'model', 'adupdates', p['opkind'], p['gk'], steps_class(exact), n,
+           ''.join('s' if np.isscalar(v) else 'v' for v in p['inner']), p['fk'])
+    ctx.hit('adupdates/inner=' + ('pointwise' if 'v' in sig[-2] else 'scalar'))
     nt = st_o == 'ok' and nontrivial(log_o, p['x0'])
     if opaque:
         ctx.case(sig if nt else None)
@@ -280,15 +291,28 @@ def family_adupdates(ctx, r, exact, n, opaque=False):
     rid = []
     for j, L in enumerate(p['Ls']):
         rid.append(min(i for i in range(p['m']) if p['Ls'][i].range == L.range))
-    fields = ' '.join('A{0}={1} At{0}={2} p{0}={3}'.format(
-        i, fmat(mats[i][0]), fmat(mats[i][1]),
-        p['Gs'][i].cprox(p['stepsize'] * p['inner'][i])) for i in range(p['m']))
+    def cprox_spec(i):
+        ss = p['inner'][i]
+        if np.isscalar(ss):
+            return p['Gs'][i].cprox(p['stepsize'] * ss)
+        if p['Gs'][i].name == 'l1':
+            return 'ball:1'           # projection onto the unit ball: independent of the step
+        sig = [Fraction(float(p['stepsize'])) * Fraction(float(v)) for v in np.asarray(ss)]
+        k = len(sig)                  # squared L2: x / (1 + sigma/2) pointwise
+        return 'lin:{}:{}'.format(fmat([[1 / (1 + sig[a] / 2) if a == b else 0 for b in range(k)]
+                                        for a in range(k)]), fl([0] * k))
+
+    def inner_wire(i):
+        ss = p['inner'][i]
+        return fs(ss) if np.isscalar(ss) else 'v:' + fl(np.asarray(ss))
+    fields = ' '.join('A{0}={1} At{0}={2} p{0}={3} in{0}={4}'.format(
+        i, fmat(mats[i][0]), fmat(mats[i][1]), cprox_spec(i), inner_wire(i))
+        for i in range(p['m']))
     cases = []
     cb = p['cb']
     st_c, log_c, x_c = (st_o, log_o, x_o) if cb == 'outer' else impl_adupdates(p, 'opt', n, cb)
-    base = 'm={} {} stepsize={} inner={} rid={} cb={} x0={} n={}'.format(
-        p['m'], fields, fs(p['stepsize']), fl(p['inner']), ','.join(map(str, rid)), cb,
-        fl(p['x0']), n)
+    base = 'm={} {} stepsize={} rid={} cb={} x0={} n={}'.format(
+        p['m'], fields, fs(p['stepsize']), ','.join(map(str, rid)), cb, fl(p['x0']), n)
     cases.append(Case(desc_of(p, n=n, variant='opt', cb=cb), sig + ('opt', cb) if nt else None,
                       'adupdates variant=opt ' + base, st_c, log_c, {'x': x_c}))
     st_s, _, x_s = impl_adupdates(p, 'simple', n)
